@@ -317,6 +317,7 @@ def run(tier):
     scen += gen_maps(rng, 42 if not big else 420, 160 if not big else 400)
     scen += gen_units(rng, 300 if not big else 5000)
     scen += [gen_db(rng, 4000 if not big else 600000), gen_pan(rng, 2000 if not big else 300000)]
+    scen.append({"kind": "clkread", "src": "grid", "cases": [{"k": k} for k in (1, 2, 10, 20, 23, 24, 25, 26, 30, 40, 52, 53)]})
     sp = os.path.join(OUT, "c19", "scen.ndjson")
     tp = os.path.join(OUT, "c19", "trace.ndjson")
     write_ndjson(sp, [{k: v for k, v in s.items() if k != "exp"} for s in scen])
